@@ -165,9 +165,18 @@ func (n *Node) finish() {
 	n.data.State.FinishedAt = time.Now()
 }
 
+var errCanceledBeforeStart = fmt.Errorf("step was canceled before its command was started")
+
 func (n *Node) setupExec(ctx context.Context) (executor.Executor, error) {
 	n.mu.Lock()
 	defer n.mu.Unlock()
+
+	if n.data.State.Status == NodeStatusCancel {
+		// The stop request came after this step had been launched but
+		// before its command existed: there was nothing to signal, so the
+		// command must not be started now.
+		return nil, errCanceledBeforeStart
+	}
 
 	ctx, fn := context.WithCancel(ctx)
 
